@@ -323,6 +323,58 @@ type config struct {
 	def      lim
 	v4, v6   []subnetCap
 	np4, np6 []prefixCap
+	// stock: the manager gets the library's own fixed limiter (NewFixedLimiter over a limit
+	// configuration built from this table) instead of the harness' table-driven Limiter
+	stock bool
+}
+
+// stockLimiter builds the library's fixed limiter from the table: every scope class the model knows
+// gets its explicit value, everything else is unlimited.
+func stockLimiter(c *config) rcmgr.Limiter {
+	v := func(x int) rcmgr.LimitVal {
+		switch {
+		case x == math.MaxInt:
+			return rcmgr.Unlimited
+		case x == 0:
+			return rcmgr.BlockAllLimit
+		}
+		return rcmgr.LimitVal(x)
+	}
+	v64 := func(x int64) rcmgr.LimitVal64 {
+		switch {
+		case x == math.MaxInt64:
+			return rcmgr.Unlimited64
+		case x == 0:
+			return rcmgr.BlockAllLimit64
+		}
+		return rcmgr.LimitVal64(x)
+	}
+	rl := func(l lim) rcmgr.ResourceLimits {
+		return rcmgr.ResourceLimits{Streams: v(l.Streams), StreamsInbound: v(l.StreamsInbound), StreamsOutbound: v(l.StreamsOutbound),
+			Conns: v(l.Conns), ConnsInbound: v(l.ConnsInbound), ConnsOutbound: v(l.ConnsOutbound), FD: v(l.FD), Memory: v64(l.Memory)}
+	}
+	unl := rl(unlimited)
+	pc := rcmgr.PartialLimitConfig{
+		System: rl(c.limitOf(sSystem)), Transient: rl(c.limitOf(sTransient)),
+		AllowlistedSystem: rl(c.limitOf(sALSystem)), AllowlistedTransient: rl(c.limitOf(sALTransient)),
+		ServiceDefault: unl, ServicePeerDefault: unl, ProtocolDefault: unl, ProtocolPeerDefault: unl, PeerDefault: unl,
+		Service: map[string]rcmgr.ResourceLimits{}, ServicePeer: map[string]rcmgr.ResourceLimits{},
+		Protocol: map[protocol.ID]rcmgr.ResourceLimits{}, ProtocolPeer: map[protocol.ID]rcmgr.ResourceLimits{},
+		Peer: map[peer.ID]rcmgr.ResourceLimits{},
+		Conn: rl(c.connLim), Stream: rl(c.strLim),
+	}
+	for k, n := range svcNames {
+		pc.Service[n] = rl(c.limitOf(sSvc(k)))
+		pc.ServicePeer[n] = rl(c.limitOf(sSvcPeer(k, 0)))
+	}
+	for j, id := range protoIDs {
+		pc.Protocol[id] = rl(c.limitOf(sProto(j)))
+		pc.ProtocolPeer[id] = rl(c.limitOf(sProtoPeer(j, 0)))
+	}
+	for i, id := range peerIDs {
+		pc.Peer[id] = rl(c.limitOf(sPeer(i)))
+	}
+	return rcmgr.NewFixedLimiter(pc.Build(rcmgr.InfiniteLimits))
 }
 
 func (c *config) limitOf(scope string) lim {
